@@ -378,3 +378,39 @@ def near_duplicates(rng, tree):
     if rng.random() < 0.5:
         out.append(rewhite(rng, map_lits(tree, inner_ws)))
     return [t for t in out if t != tree]
+
+
+# ---------------------------------------------------------------- wide-sense white space (totality)
+# bytes that unicode.IsSpace / strings.TrimSpace / strings.Fields treat as white space but PEP 508 does not,
+# plus NUL and a control byte: any code that trims or splits with a wider set than " \t" is exposed by them
+WIDE_WS = [b"\n", b"\r", b"\v", b"\f", b"\xc2\x85", b"\xc2\xa0", b"\xe2\x80\xa8", b"\xe3\x80\x80", b"\x00", b"\x1f"]
+
+
+def ws_mutate(rng, b):
+    """insert one or two wide-sense white space tokens, preferably at an end or next to existing white space"""
+    for _ in range(rng.choice([1, 1, 2])):
+        w = rng.choice(WIDE_WS)
+        spots = [0, len(b)] + [i for i, c in enumerate(b) if c in b" \t"] + [i + 1 for i, c in enumerate(b) if c in b" \t"]
+        i = rng.choice(spots) if rng.random() < 0.8 else rng.randrange(len(b) + 1)
+        b = b[:i] + w + b[i:]
+    return b
+
+
+def wide_ws_requirements(rng, n, valid_pool):
+    """requirement-like strings with wide-sense white space next to the name, the brackets and at both ends"""
+    out = []
+    bases = [b"requests", b"a", b"A_b.c", b"requests[x]", b"requests [ x , y ]", b"requests>=1.0", b"requests (>=1.0)",
+             b"requests ; os_name=='a'", b"requests[x]>=1;extra=='t'"]
+    for base in bases:
+        for w in WIDE_WS:
+            out += [base + b" " + w, base + w, w + base, base + b"\t" + w + w, w + b" " + base + b" " + w,
+                    base + b" " + w + b"[x]", base + b" " + w + b";os_name=='a'", base + b"[" + w + b"]", base + b"[x]" + b" " + w]
+    while len(out) < n:
+        r = rng.random()
+        if r < 0.5 and valid_pool:
+            out.append(ws_mutate(rng, rng.choice(valid_pool)))
+        elif r < 0.8:
+            out.append(ws_mutate(rng, gen_name(rng) + rng.choice([b"", b" ", b"\t", b"  "])))
+        else:
+            out.append(ws_mutate(rng, malformed_req(rng, valid_pool)))
+    return out
